@@ -14,6 +14,7 @@ from .api_numpy import (
     fresh_arr,
     kwterms,
     reduce_shape,
+    shape_arg_terms,
     shape_terms,
 )
 from .terms import FRESH, Dim, T, Term, V, const, fresh_id, sym, unk, varr, vbool, vconst, vfloat, vint, vunk
@@ -74,7 +75,7 @@ def np_zeros(interp, name, args, kw, st, node):
     base = name.rsplit(".", 1)[1]
     if base == "empty":
         base = "zeros"
-    term = T(base, *shape_terms(dims)) if dims is not None else T(base, b["shape"].term)
+    term = T(base, *shape_terms(dims, shape_arg_terms(b["shape"]))) if dims is not None else T(base, b["shape"].term)
     if tag:
         term = T("astype", term, tag)
     return fresh_arr(term, dims, frozenset(), tag)
@@ -86,7 +87,7 @@ def np_full(interp, name, args, kw, st, node):
     dims = dims_from_shape_arg(b["shape"])
     fill = b["fill_value"]
     tag = _dtype_tag(b.get("dtype"), fill)
-    term = T("full", fill.term, *shape_terms(dims)) if dims is not None else T("full", fill.term, b["shape"].term)
+    term = T("full", fill.term, *shape_terms(dims, shape_arg_terms(b["shape"]))) if dims is not None else T("full", fill.term, b["shape"].term)
     return fresh_arr(term, dims, _L(fill), tag)
 
 
@@ -454,12 +455,12 @@ def reshape_to(interp, x, dims_v, st, node):
             if A.dims_conflict(interp, a, b):
                 interp.event("shape-conflict", node, st, what="reshape-size", a=tuple(sh), b=dims)
     # canonical term: reshape that only drops/adds unit axes keeps value numbering simple
-    term = T("reshape", x.term, *shape_terms(dims))
+    term = T("reshape", x.term, *shape_terms(dims, [d.term for d in dims_v]))
     if sh is not None:
         core_a = tuple(d for d in sh if not (d.is_const() and d.c == 1))
         core_b = tuple(d for d in dims if not (d.is_const() and d.c == 1))
         if core_a == core_b:
-            term = T("reshape1", x.term, *shape_terms(dims))
+            term = T("reshape1", x.term, *shape_terms(dims, [d.term for d in dims_v]))
     return V("arr", term, shape=dims, orig=x.orig, labels=x.labels, loc=x.loc, extra=x.extra if isinstance(x.extra, str) else None)
 
 
